@@ -47,6 +47,12 @@ pub struct Profile {
     pub w_recaps_dead: u64,
     /// macro: insert several attributes at chosen ranks of a hierarchy, update, issue keys on its levels
     pub w_grow: u64,
+    /// macro: rekey, [refresh], [prune], refresh of one key -- every flag combination
+    pub w_rot_cycle: u64,
+    /// macro: the master key is stored and reloaded in the state it is in (after an optional disable + update), then used
+    pub w_reload: u64,
+    /// macro: many key generations (the registered identifiers pile up), then the master key is stored and reloaded
+    pub w_crowd: u64,
     pub hyb: u64,
 }
 
@@ -83,6 +89,9 @@ pub fn profile(name: &str) -> Profile {
         w_pending_prune: 1,
         w_recaps_dead: 1,
         w_grow: 1,
+        w_rot_cycle: 2,
+        w_reload: 2,
+        w_crowd: 0,
         hyb: 3,
     };
     match name {
@@ -110,6 +119,8 @@ pub fn profile(name: &str) -> Profile {
             w_pending_prune: 0,
             w_recaps_dead: 0,
             w_grow: 0,
+            w_rot_cycle: 0,
+            w_reload: 0,
             w_keygen: 5,
             w_encaps: 9,
             users: 5,
@@ -145,6 +156,7 @@ pub fn profile(name: &str) -> Profile {
             w_recaps: 0,
             w_refresh: 10,
             w_clone: 4,
+            w_rot_cycle: 5,
             w_pending_prune: 0,
             w_recaps_dead: 0,
             w_grow: 0,
@@ -165,13 +177,15 @@ pub fn profile(name: &str) -> Profile {
             w_clone: 3,
             w_pending_prune: 4,
             w_recaps_dead: 0,
+            w_rot_cycle: 5,
             ..base
         },
         "disable" => Profile {
             name: "disable",
             w_add_attr: 3,
             w_del_attr: 0,
-            w_rename: 0,
+            w_rename: 2,
+            w_reload: 4,
             w_add_dim: 1,
             w_del_dim: 0,
             w_disable: 6,
@@ -244,9 +258,45 @@ pub fn profile(name: &str) -> Profile {
             w_refresh: 4,
             w_encaps: 6,
             w_grow: 6,
+            w_reload: 4,
             w_pending_prune: 0,
             w_recaps_dead: 0,
             users: 5,
+            ..base
+        },
+        // a small classic structure and many issued keys: the set of registered identifiers grows large
+        // relative to the rest of the master key
+        "crowd" => Profile {
+            name: "crowd",
+            dims: 1,
+            attrs: 2,
+            steps: 10,
+            hyb: 0,
+            w_add_attr: 0,
+            w_del_attr: 0,
+            w_rename: 0,
+            w_disable: 0,
+            w_add_dim: 0,
+            w_del_dim: 0,
+            w_swap: 0,
+            w_born: 0,
+            w_update: 1,
+            w_rekey: 2,
+            w_prune: 1,
+            w_recaps: 0,
+            w_header: 0,
+            w_keygen: 3,
+            w_refresh: 6,
+            w_roundtrip: 3,
+            w_encaps: 2,
+            w_grow: 0,
+            w_pending_prune: 0,
+            w_recaps_dead: 0,
+            w_rot_cycle: 1,
+            w_reload: 2,
+            w_crowd: 6,
+            w_invalid: 0,
+            users: 4,
             ..base
         },
         "big" => Profile {
@@ -526,6 +576,9 @@ impl Driver {
             ("pending_prune", p.w_pending_prune),
             ("recaps_dead", p.w_recaps_dead),
             ("grow", p.w_grow),
+            ("rot_cycle", p.w_rot_cycle),
+            ("reload", p.w_reload),
+            ("crowd", p.w_crowd),
             ("roundtrip", p.w_roundtrip),
             ("mpk", p.w_mpk),
             ("save_msk", p.w_save),
@@ -849,6 +902,78 @@ impl Driver {
                         }
                     }
                     continue;
+                }
+                "rot_cycle" => {
+                    // one key through a rotation: rekey, [refresh with a flag], [prune], refresh with a flag
+                    let pol = self.rand_policy(&mut rng, p, false);
+                    let u = match rng.pick(&users) {
+                        Some(u) => u.clone(),
+                        None => {
+                            self.n_user += 1;
+                            let u = format!("u{}", self.n_user);
+                            self.step(&json!({"op": "keygen", "u": u, "pol": pol.clone()}));
+                            u
+                        }
+                    };
+                    self.step(&json!({"op": "rekey", "pol": pol.clone()}));
+                    if rng.chance(1, 2) {
+                        self.step(&json!({"op": "refresh", "u": u, "keep": rng.chance(2, 3)}));
+                    }
+                    if rng.chance(1, 2) {
+                        self.step(&json!({"op": "prune", "pol": pol.clone()}));
+                    }
+                    if rng.chance(1, 4) {
+                        self.step(&json!({"op": "roundtrip", "obj": "usk", "u": u}));
+                    }
+                    json!({"op": "refresh", "u": u, "keep": rng.chance(1, 2)})
+                }
+                "reload" => {
+                    // the master key is stored and reloaded in the state it is in -- sometimes right after an attribute
+                    // was disabled -- and then used: update, keys for single attributes, refreshes
+                    let attrs: Vec<(String, String)> = st.iter().flat_map(|x| x.2.iter().map(move |a| (x.0.clone(), a.0.clone()))).collect();
+                    if p.w_disable > 0 && rng.chance(1, 3) {
+                        if let Some((d, n)) = rng.pick(&attrs) {
+                            self.step(&json!({"op": "disable", "d": d, "n": n}));
+                            self.step(&json!({"op": "update"}));
+                        }
+                    }
+                    self.step(&json!({"op": "roundtrip", "obj": if rng.chance(3, 4) {"msk"} else {"st"}}));
+                    if rng.chance(2, 3) {
+                        self.step(&json!({"op": "update"}));
+                    }
+                    for _ in 0..(1 + rng.below(2)) {
+                        if let Some((d, n)) = rng.pick(&attrs) {
+                            if self.world.usks.len() < p.users + 2 {
+                                self.n_user += 1;
+                                self.step(&json!({"op": "keygen", "u": format!("u{}", self.n_user), "pol": [[[d, n]]]}));
+                            }
+                        }
+                    }
+                    match rng.pick(&users) {
+                        Some(u) => json!({"op": "refresh", "u": u, "keep": rng.chance(1, 2)}),
+                        None => continue,
+                    }
+                }
+                "crowd" => {
+                    // many issued keys (only the last few handles are kept; the master key registers every identifier)
+                    let n = 12 + rng.below(40);
+                    for _ in 0..n {
+                        self.n_user += 1;
+                        let u = format!("u{}", self.n_user);
+                        self.step(&json!({"op": "keygen", "u": u, "pol": [[]]}));
+                        if self.world.usks.len() > p.users {
+                            let old: Vec<String> = self.world.usks.keys().cloned().collect();
+                            if let Some(o) = old.iter().find(|x| **x != u) {
+                                self.step(&json!({"op": "drop_usk", "u": o}));
+                            }
+                        }
+                    }
+                    self.step(&json!({"op": "roundtrip", "obj": "msk"}));
+                    let kept: Vec<String> = self.world.usks.keys().cloned().collect();
+                    for u in &kept {
+                        self.step(&json!({"op": "refresh", "u": u, "keep": rng.chance(1, 2)}));
+                    }
+                    json!({"op": "roundtrip", "obj": "msk"})
                 }
                 "header" => {
                     let k = if rng.chance(2, 3) { nmpk } else { 1 + rng.below(nmpk) };
